@@ -226,14 +226,26 @@ func at(ns int64) time.Time { return base.Add(time.Duration(ns)) }
 func magVal(n int64) float32 { return float32(math.Ldexp(float64(n), -magShift)) }
 
 func pbSeg(s sg) *traits.ElectricMode_Segment {
-	out := &traits.ElectricMode_Segment{Magnitude: magVal(s.mag)}
+	out := watchNew[traits.ElectricMode_Segment](wa, "segment")
+	out.Magnitude = magVal(s.mag)
 	if !s.inf {
-		out.Length = durationpb.New(time.Duration(s.len))
+		out.Length = watchNew[durationpb.Duration](wa, "segment length")
+		dl := durationpb.New(time.Duration(s.len))
+		out.Length.Seconds, out.Length.Nanos = dl.Seconds, dl.Nanos
 		if s.len == math.MaxInt64 {
 			// a proto beyond the int64 ns range: AsDuration saturates it to exactly this length
-			out.Length = &durationpb.Duration{Seconds: 9223372037}
+			out.Length.Seconds, out.Length.Nanos = 9223372037, 0
 		}
+		out.Length.ProtoReflect()
 	}
+	out.ProtoReflect() // the lazily set type pointer of the message is in place before the call under test
+	return out
+}
+
+// pbFixed is the oneof wrapper of a Fixed shape.
+func pbFixed(v float32) *traits.ElectricMode_Segment_Fixed {
+	out := watchNew[traits.ElectricMode_Segment_Fixed](wa, "segment shape")
+	out.Fixed = v
 	return out
 }
 
@@ -250,14 +262,15 @@ type guarded struct {
 
 func guard(l []sg) *guarded {
 	g := &guarded{n: len(l)}
-	g.full = make([]*traits.ElectricMode_Segment, len(l)+2)
+	g.full = watchSlice[*traits.ElectricMode_Segment](wa, len(l)+2, len(l)+2, "segment slice")
 	for i, s := range l {
 		g.full[i] = pbSeg(s)
 		g.ptrs = append(g.ptrs, g.full[i])
 		g.clone = append(g.clone, proto.Clone(g.full[i]).(*traits.ElectricMode_Segment))
 	}
-	g.s1 = &traits.ElectricMode_Segment{Magnitude: -777}
-	g.s2 = &traits.ElectricMode_Segment{Magnitude: -778}
+	g.s1 = watchNew[traits.ElectricMode_Segment](wa, "segment in the spare capacity")
+	g.s2 = watchNew[traits.ElectricMode_Segment](wa, "segment in the spare capacity")
+	g.s1.Magnitude, g.s2.Magnitude = -777, -778
 	g.full[len(l)] = g.s1
 	g.full[len(l)+1] = g.s2
 	return g
@@ -289,13 +302,18 @@ type guardedMode struct {
 
 func guardMode(m md) *guardedMode {
 	g := guard(m.segs)
-	mode := &traits.ElectricMode{Id: "m1", Title: "t", Segments: g.arg()}
+	mode := watchNew[traits.ElectricMode](wa, "mode")
+	mode.Id, mode.Title, mode.Segments = "m1", "t", g.arg()
 	if m.hasStart {
-		mode.StartTime = timestamppb.New(at(m.start))
+		ts := timestamppb.New(at(m.start))
+		mode.StartTime = watchNew[timestamppb.Timestamp](wa, "mode start time")
+		mode.StartTime.Seconds, mode.StartTime.Nanos = ts.Seconds, ts.Nanos
 		if denormStarts {
-			mode.StartTime = &timestamppb.Timestamp{Seconds: mode.StartTime.Seconds + 1, Nanos: mode.StartTime.Nanos - 1_000_000_000}
+			mode.StartTime.Seconds, mode.StartTime.Nanos = ts.Seconds+1, ts.Nanos-1_000_000_000
 		}
+		mode.StartTime.ProtoReflect()
 	}
+	mode.ProtoReflect()
 	return &guardedMode{mode: mode, clone: proto.Clone(mode).(*traits.ElectricMode), g: g}
 }
 
@@ -423,7 +441,18 @@ func mustInt(s string) int64 {
 	return v
 }
 
+// runCode runs the real code on the case: once on ordinary heap arguments (the outcome the tie and the monitor
+// work on), and, unless that run already shows a modified argument or a panic, once more on arguments in
+// read-only pages (watch.go), which turns ANY store into an argument during the call into o.mutated.
 func (c scase) runCode() (o outcome) {
+	o = c.runCode0()
+	if o.mutated == "" && !strings.HasPrefix(o.text, "panic:") && o.text != "!bad-op" {
+		o.mutated = c.runWatched()
+	}
+	return o
+}
+
+func (c scase) runCode0() (o outcome) {
 	c.useBase()
 	panicked, msg := lib.Catch(func() {
 		switch c.Op {
@@ -432,18 +461,21 @@ func (c scase) runCode() (o outcome) {
 			g := guard(parseSgs(c.L))
 			switch c.Op {
 			case "active":
-				el, idx := segmentpb.ActiveAt(d, g.arg()...)
+				var el time.Duration
+				var idx int
+				watched(wa, func() { el, idx = segmentpb.ActiveAt(d, g.arg()...) })
 				o.ints = []int64{int64(el), int64(idx)}
 				o.text = fmt.Sprintf("%d|%d", int64(el), idx)
 			case "magat":
-				o.mag, o.ok = segmentpb.MagnitudeAt(d, g.arg()...)
+				watched(wa, func() { o.mag, o.ok = segmentpb.MagnitudeAt(d, g.arg()...) })
 				o.text = showMag(o.mag) + "|" + strconv.FormatBool(o.ok)
 			case "maxafter":
-				idx := segmentpb.MaxAfter(d, g.arg()...)
+				var idx int
+				watched(wa, func() { idx = segmentpb.MaxAfter(d, g.arg()...) })
 				o.ints = []int64{int64(idx)}
 				o.text = strconv.Itoa(idx)
 			case "shift":
-				o.segs = segmentpb.Shift(d, g.arg()...)
+				watched(wa, func() { o.segs = segmentpb.Shift(d, g.arg()...) })
 				o.text = showPBSegs(o.segs)
 			}
 			o.mutated = g.changed()
@@ -451,23 +483,26 @@ func (c scase) runCode() (o outcome) {
 			g := guard(parseSgs(c.L))
 			switch c.Op {
 			case "dur":
-				tot, inf := segmentpb.Duration(g.arg()...)
+				var tot time.Duration
+				var inf bool
+				watched(wa, func() { tot, inf = segmentpb.Duration(g.arg()...) })
 				o.ints, o.ok = []int64{int64(tot)}, inf
 				o.text = fmt.Sprintf("%d|%v", int64(tot), inf)
 			case "max":
-				idx := segmentpb.Max(g.arg()...)
-				o.mag = segmentpb.MaxMagnitude(g.arg()...)
+				var idx int
+				watched(wa, func() { idx = segmentpb.Max(g.arg()...) })
+				watched(wa, func() { o.mag = segmentpb.MaxMagnitude(g.arg()...) })
 				o.ints = []int64{int64(idx)}
 				o.text = strconv.Itoa(idx) + "|" + showMag(o.mag)
 			case "summag":
-				o.mag = segmentpb.SumMagnitude(g.arg()...)
+				watched(wa, func() { o.mag = segmentpb.SumMagnitude(g.arg()...) })
 				o.text = showMag(o.mag)
 			}
 			o.mutated = g.changed()
 		case "cut":
 			d := time.Duration(mustInt(c.D))
 			g := guard([]sg{parseSg(c.L)})
-			o.before, o.after, o.ok = segmentpb.Cut(d, g.full[0])
+			watched(wa, func() { o.before, o.after, o.ok = segmentpb.Cut(d, g.full[0]) })
 			o.text = showPBSeg(o.before) + "|" + showPBSeg(o.after) + "|" + strconv.FormatBool(o.ok)
 			o.mutated = g.changed()
 		case "cuts":
@@ -476,23 +511,25 @@ func (c scase) runCode() (o outcome) {
 			s, shape, has := parseShaped(c.L)
 			g := guard([]sg{s})
 			if has {
-				g.full[0].Shape = &traits.ElectricMode_Segment_Fixed{Fixed: magVal(shape)}
+				g.full[0].Shape = pbFixed(magVal(shape))
 				g.clone[0] = proto.Clone(g.full[0]).(*traits.ElectricMode_Segment)
 			}
-			o.before, o.after, o.ok = segmentpb.Cut(d, g.full[0])
+			watched(wa, func() { o.before, o.after, o.ok = segmentpb.Cut(d, g.full[0]) })
 			o.text = showPBSegS(o.before) + "|" + showPBSegS(o.after) + "|" + strconv.FormatBool(o.ok)
 			o.mutated = g.changed()
 		case "sum":
 			ls := parseSgLists(c.L)
 			gs := make([]*guarded, len(ls))
-			args := make([][]*traits.ElectricMode_Segment, len(ls), len(ls)+1)
+			args := watchSlice[[]*traits.ElectricMode_Segment](wa, len(ls), len(ls)+1, "slice of lists")
 			for i, l := range ls {
 				gs[i] = guard(l)
 				args[i] = gs[i].arg()
 			}
-			sentinel := []*traits.ElectricMode_Segment{{Magnitude: -779}}
+			sentinel := watchSlice[*traits.ElectricMode_Segment](wa, 1, 1, "list in the spare capacity of the slice of lists")
+			sentinel[0] = watchNew[traits.ElectricMode_Segment](wa, "segment in the spare capacity of the slice of lists")
+			sentinel[0].Magnitude = -779
 			args[:len(ls)+1][len(ls)] = sentinel
-			o.segs = segmentpb.Sum(args...)
+			watched(wa, func() { o.segs = segmentpb.Sum(args...) })
 			o.text = showPBSegs(o.segs)
 			if spare := args[:len(ls)+1][len(ls)]; len(spare) != 1 || spare[0] != sentinel[0] || sentinel[0].Magnitude != -779 {
 				o.mutated = "the spare capacity of the slice of lists was written to"
@@ -512,21 +549,24 @@ func (c scase) runCode() (o outcome) {
 			g := guardMode(parseMd(c.L))
 			switch c.Op {
 			case "mactive":
-				el, idx := modepb.ActiveAt(at(x), g.mode)
+				var el time.Duration
+				var idx int
+				watched(wa, func() { el, idx = modepb.ActiveAt(at(x), g.mode) })
 				o.ints = []int64{int64(el), int64(idx)}
 				o.text = fmt.Sprintf("%d|%d", int64(el), idx)
 			case "mmagat":
-				o.mag, o.ok = modepb.MagnitudeAt(at(x), g.mode)
+				watched(wa, func() { o.mag, o.ok = modepb.MagnitudeAt(at(x), g.mode) })
 				o.text = showMag(o.mag) + "|" + strconv.FormatBool(o.ok)
 			case "mmaxafter":
-				idx := modepb.MaxSegmentAfter(at(x), g.mode)
+				var idx int
+				watched(wa, func() { idx = modepb.MaxSegmentAfter(at(x), g.mode) })
 				o.ints = []int64{int64(idx)}
 				o.text = strconv.Itoa(idx)
 			case "mcut":
-				o.mBefore, o.mAfter, o.ok = modepb.Cut(at(x), g.mode)
+				watched(wa, func() { o.mBefore, o.mAfter, o.ok = modepb.Cut(at(x), g.mode) })
 				o.text = showPBMode(o.mBefore) + "|" + showPBMode(o.mAfter) + "|" + strconv.FormatBool(o.ok)
 			case "mshift":
-				o.mode = modepb.Shift(time.Duration(x), g.mode)
+				watched(wa, func() { o.mode = modepb.Shift(time.Duration(x), g.mode) })
 				o.text = showPBMode(o.mode)
 			}
 			o.mutated = g.changed()
@@ -547,7 +587,9 @@ func (c scase) runCode() (o outcome) {
 				}
 				return -1
 			}
-			mode, mag := modepb.MinAt(at(x), arg)
+			var mode *traits.ElectricMode
+			var mag float32
+			watched(wa, func() { mode, mag = modepb.MinAt(at(x), arg) })
 			o.mag = mag
 			if mode == nil {
 				o.text = "nil"
@@ -595,12 +637,12 @@ func (c scase) runCode() (o outcome) {
 		case "msum":
 			ms := parseMds(c.L)
 			gs := make([]*guardedMode, len(ms))
-			args := make([]*traits.ElectricMode, len(ms))
+			args := watchSlice[*traits.ElectricMode](wa, len(ms), len(ms), "slice of modes")
 			for i, m := range ms {
 				gs[i] = guardMode(m)
 				args[i] = gs[i].mode
 			}
-			o.mode = modepb.Sum(args...)
+			watched(wa, func() { o.mode = modepb.Sum(args...) })
 			o.text = showPBMode(o.mode)
 			for i, g := range gs {
 				if args[i] != g.mode {
@@ -1974,6 +2016,9 @@ func runSeg(f lib.Flags, res *lib.Result, drv *lib.Driver) {
 	runModeFar(f, res, drv, mon)
 	runSegFloat(f, res, drv, mon)
 	runFloatRounding(f, res, drv, mon)
+	for k, v := range watchCounts {
+		mon.Distribution[k] += v
+	}
 }
 
 // ---- float32 tier ------------------------------------------------------------------------------
